@@ -1,3 +1,165 @@
-import Mqtt5V.Basic
+import Mqtt5V.Model.Validate
+/-! # C15 — capabilities announced in CONNACK are honoured (request validation core)
+
+Model of `publish_send_op::perform` / `subscribe_op::perform` with their validation chains
+(`Except error bytes`).  For every combination of capabilities and every request:
+a packet is handed to the sender only if it respects Maximum Packet Size, Maximum QoS, Retain Available,
+Topic Alias Maximum and the wildcard / shared / identifier availability; otherwise the documented error is
+returned (in the code's precedence order) and no packet is built. -/
 namespace Mqtt5V.Props.C15
+open Mqtt5V.Wire Mqtt5V.Model.Validate Mqtt5V.Model.Enc Mqtt5V.Model.Utf8
+
+theorem validatePublish_zero (c : Caps) (qos retain : Nat) (topic payload : Bs) (ps : Props)
+    (h : validatePublish c qos retain topic payload ps = 0) :
+    qos ≤ c.maxQos ∧ ¬ (c.retainAvailable = 0 ∧ retain = 1) ∧ validatePublishProps c ps = 0 := by
+  unfold validatePublish at h
+  by_cases h1 : (if (numOf ps 35).isSome then validateTopicAliasName topic == 0 else validateTopicName topic == 0) = true
+  · by_cases h2 : qos > c.maxQos
+    · simp [h1, h2, E_QOS] at h
+    · by_cases h3 : c.retainAvailable = 0 ∧ retain = 1
+      · simp [h1, h2, h3, E_RETAIN] at h
+      · by_cases h4 : (numOf ps 1).getD 0 = 1 ∧ validateUtf8 payload ≠ 0
+        · simp [h1, h2, h3, h4, E_MALFORMED] at h
+        · simp only [h1, h2, h3, h4, Bool.not_true, Bool.false_eq_true, if_false] at h
+          exact ⟨by omega, h3, h⟩
+  · simp [h1, E_INVALID_TOPIC] at h
+
+theorem validatePublishProps_alias (c : Caps) (ps : Props) (h : validatePublishProps c ps = 0) :
+    ∀ a, numOf ps 35 = some a → 1 ≤ a ∧ a ≤ c.topicAliasMax := by
+  intro a ha
+  unfold validatePublishProps at h
+  rw [ha] at h
+  simp only [] at h
+  by_cases h1 : c.topicAliasMax = 0 ∨ a > c.topicAliasMax
+  · simp [h1, E_ALIAS] at h
+  · by_cases h2 : a = 0
+    · subst h2
+      have h1' : ¬ c.topicAliasMax = 0 := fun e => h1 (Or.inl e)
+      simp [h1', E_MALFORMED] at h
+    · omega
+
+/-- **PUBLISH honours the capabilities**: an accepted publish fits the Maximum Packet Size, does not exceed Maximum QoS,
+is not retained when the broker has no retain support, and uses a Topic Alias only within 1 … Topic Alias Maximum -/
+theorem publish_caps (c : Caps) (pid qos retain : Nat) (topic payload : Bs) (ps : Props) (pkt : Bs)
+    (h : publishRequest c pid qos retain topic payload ps = .ok pkt) :
+    pkt.length ≤ c.maxPacket ∧ qos ≤ c.maxQos ∧ ¬ (c.retainAvailable = 0 ∧ retain = 1) ∧
+    (∀ a, numOf ps 35 = some a → 1 ≤ a ∧ a ≤ c.topicAliasMax) ∧ pkt = encodePublish pid topic payload qos retain 0 ps := by
+  unfold publishRequest at h
+  by_cases hv : validatePublish c qos retain topic payload ps = 0
+  · by_cases hsz : (encodePublish pid topic payload qos retain 0 ps).length > c.maxPacket
+    · simp [hv, hsz] at h
+    · simp only [hv, ne_eq, not_true_eq_false, if_false, hsz, Except.ok.injEq] at h
+      subst h
+      obtain ⟨h1, h2, h3⟩ := validatePublish_zero c qos retain topic payload ps hv
+      exact ⟨by omega, h1, h2, validatePublishProps_alias c ps h3, rfl⟩
+  · simp [hv] at h
+
+/-- the documented errors, in the code's precedence order -/
+theorem publish_error_table (c : Caps) (pid qos retain : Nat) (topic payload : Bs) (ps : Props) :
+    (qos > c.maxQos → (numOf ps 35).isNone → validateTopicName topic = 0 →
+        publishRequest c pid qos retain topic payload ps = .error E_QOS) ∧
+    (qos ≤ c.maxQos → c.retainAvailable = 0 → retain = 1 → (numOf ps 35).isNone → validateTopicName topic = 0 →
+        publishRequest c pid qos retain topic payload ps = .error E_RETAIN) ∧
+    ((numOf ps 35).isNone → validateTopicName topic ≠ 0 → publishRequest c pid qos retain topic payload ps = .error E_INVALID_TOPIC) := by
+  refine ⟨?_, ?_, ?_⟩
+  · intro h1 h2 h3
+    have : numOf ps 35 = none := by simpa using h2
+    simp [publishRequest, validatePublish, this, h3, h1, E_QOS]
+  · intro h1 h2 h3 h4 h5
+    have : numOf ps 35 = none := by simpa using h4
+    have hq : ¬ qos > c.maxQos := by omega
+    simp [publishRequest, validatePublish, this, h5, hq, h2, h3, E_RETAIN]
+  · intro h1 h2
+    have : numOf ps 35 = none := by simpa using h1
+    simp [publishRequest, validatePublish, this, h2, E_INVALID_TOPIC]
+
+/-- boundaries of the size check: a packet of exactly Maximum Packet Size is sent, one byte more is refused -/
+theorem size_boundary (c : Caps) (pid qos retain : Nat) (topic payload : Bs) (ps : Props)
+    (hv : validatePublish c qos retain topic payload ps = 0) :
+    ((encodePublish pid topic payload qos retain 0 ps).length ≤ c.maxPacket →
+        publishRequest c pid qos retain topic payload ps = .ok (encodePublish pid topic payload qos retain 0 ps)) ∧
+    ((encodePublish pid topic payload qos retain 0 ps).length > c.maxPacket →
+        publishRequest c pid qos retain topic payload ps = .error E_TOO_LARGE) := by
+  constructor <;> intro h <;> simp [publishRequest, hv] <;> omega
+
+theorem firstErr_zero (l : List Nat) (h : firstErr l = 0) : ∀ e ∈ l, e = 0 := by
+  induction l with
+  | nil => intro e he; cases he
+  | cons a as ih =>
+    intro e he
+    simp only [firstErr] at h
+    split at h
+    · omega
+    · rename_i ha
+      simp at he
+      rcases he with rfl | he
+      · omega
+      · exact ih h e he
+
+/-- **SUBSCRIBE honours the capabilities**: an accepted subscribe fits the Maximum Packet Size; with wildcard subscriptions
+disabled every filter validated as a plain topic name (no `#`/`+`); with shared subscriptions disabled no filter starts
+with `$share/`; a Subscription Identifier is present only if the broker supports them, and then within 1 … 268 435 455 -/
+theorem subscribe_caps (c : Caps) (pid : Nat) (topics : List (Bs × SubOpts)) (ps : Props) (pkt : Bs)
+    (h : subscribeRequest c pid topics ps = .ok pkt) :
+    pkt.length ≤ c.maxPacket ∧ topics ≠ [] ∧
+    (∀ t ∈ topics, validateSubTopic c t.1 = 0) ∧
+    (∀ t ∈ topics, c.sharedAvailable = 0 → startsWithShare t.1 = false) ∧
+    (∀ sid, numOf ps 11 = some sid → c.subIdAvailable ≠ 0 ∧ 1 ≤ sid ∧ sid ≤ 268435455) := by
+  unfold subscribeRequest at h
+  split at h
+  · cases h
+  · rename_i hne
+    simp only [] at h
+    split at h
+    · cases h
+    · rename_i he
+      split at h
+      · cases h
+      · rename_i he2
+        split at h
+        · cases h
+        · rename_i hsz
+          simp only [Except.ok.injEq] at h
+          subst h
+          have he0 : firstErr (topics.map fun t => validateSubTopic c t.1) = 0 := by
+            cases hx : firstErr (topics.map fun t => validateSubTopic c t.1) with
+            | zero => rfl
+            | succ n => rw [hx] at he; simp at he
+          have hall := firstErr_zero _ he0
+          have htop : ∀ t ∈ topics, validateSubTopic c t.1 = 0 := fun t ht => hall _ (List.mem_map_of_mem ht)
+          have hp0 : validateSubProps c ps = 0 := by
+            cases hx : validateSubProps c ps with
+            | zero => rfl
+            | succ n => rw [hx] at he2; simp at he2
+          refine ⟨by omega, by simpa using hne, htop, ?_, ?_⟩
+          · intro t ht hs
+            have := htop t ht
+            unfold validateSubTopic at this
+            simp only [] at this
+            cases hsw : startsWithShare t.1 with
+            | false => rfl
+            | true => simp [hsw, hs, E_SHARED] at this
+          · intro sid hsid
+            unfold validateSubProps at hp0
+            split at hp0
+            · simp [E_MALFORMED] at hp0
+            · rw [hsid] at hp0
+              simp only [] at hp0
+              split at hp0
+              · simp [E_SUBID] at hp0
+              · rename_i hav
+                split at hp0
+                · rename_i hr; exact ⟨hav, hr.1, hr.2⟩
+                · simp [E_MALFORMED] at hp0
+
+/-- non-vacuity: with Maximum QoS 1 a QoS 2 publish is refused with qos_not_supported before anything is encoded -/
+example : validatePublish { maxQos := 1 } 2 0 [116] [112] [] = E_QOS ∧ validateSubProps { subIdAvailable := 0 } [⟨11, .vint 5⟩] = E_SUBID := by
+  constructor
+  · have : validateTopicName [116] = 0 := by
+      simp [validateTopicName, validateImpl, isValidTopicSize, isValidStringSize, Gen.Utf8Rule.maxStringSize]
+      rw [validateLoop]; simp [popFront, Gen.Utf8Rule.charRule, isUtf8NoWildcard]
+      rw [validateLoop]; simp
+    simp [validatePublish, numOf, this, E_QOS]
+  · simp [validateSubProps, userPropsOk, pairsOf, numOf, E_SUBID]
+
 end Mqtt5V.Props.C15
